@@ -1,6 +1,4 @@
-import SfntV.Drive.Parser
-import SfntV.Drive.Header
-import SfntV.Drive.Cmap
+import Driver.Registry
 
 open SfntV
 
@@ -8,11 +6,9 @@ def dispatch (line : String) : String :=
   match (line.trimAscii.toString.splitOn " ") with
   | [] => "bad-case"
   | op :: rest =>
-    let fs := fields rest
-    if op.startsWith "parser." then Drive.Parser.handle op fs
-    else if op.startsWith "header." then Drive.Header.handle op fs
-    else if op.startsWith "cmap" then Drive.Cmap.handle op fs
-    else "unknown-op"
+    match Drive.registry.find? (fun e => e.1.any (fun p => op.startsWith p)) with
+    | some e => e.2 op (fields rest)
+    | none => "unknown-op"
 
 partial def loop (hin : IO.FS.Stream) (hout : IO.FS.Stream) : IO Unit := do
   let line ← hin.getLine
